@@ -410,7 +410,9 @@ let explore cap u maxstates depth prefix flavor =
     let q = Queue.create () in
     Hashtbl.add seen (ident (flatten_fast b0)) ();
     Queue.add (b0, path0, sid0) q;
-    let nh = ref 0 and nstates = ref 1 and truncated = ref false and maxh = ref 0 in
+    let nh = ref 0 and nstates = ref 1 and truncated = ref false and maxh = ref 0 and structural = ref 0 in
+    let nodes (b : z bstate) = let h = flatten_fast b in
+      List.length (List.filter (fun x -> x) h.hleaves.mask) + List.length (List.filter (fun x -> x) h.hbranches.mask) in
     let probes = Printf.sprintf "V\nQ\nL\nFL\nIT items,fast,keys,values 0:%d 1:%d 2:%d 3:%d\nSL\n"
         (u + 2) (u + 2) (u + 2) (u + 2) in
     let tag = Printf.sprintf "x%s%d.%d.%s.%d" (if flavor = "basic" then "" else flavor) cap u (String.concat "" (String.split_on_char ':' prefix)) depth in
@@ -449,6 +451,7 @@ let explore cap u maxstates depth prefix flavor =
           (match out with
            | UPanic | UFuel | UUB -> ()
            | _ ->
+             if nodes b' <> nodes b then incr structural;
              let id = ident (flatten_fast b') in
              if not (Hashtbl.mem seen id) then
                if depth > 0 && plen + 1 - plen0 >= depth then truncated := true
@@ -462,8 +465,8 @@ let explore cap u maxstates depth prefix flavor =
       done
     done;
     flush_buf ();
-    Printf.eprintf "EXPLORE cap=%d keys=%d states=%d transitions=%d longest_path=%d closed=%b\n"
-      cap u !nstates !nh !maxh (not !truncated)
+    Printf.eprintf "EXPLORE cap=%d keys=%d states=%d transitions=%d longest_path=%d closed=%b structural=%d\n"
+      cap u !nstates !nh !maxh (not !truncated) !structural
 
 (* --explore-arena N: every CompactArena state (allocation mask and free-list order; stored items
    ignored) with at most N slots, reachable from the empty arena; one history per (state, call) with
@@ -474,7 +477,7 @@ let explore_arena n =
   let seen = Hashtbl.create 4096 in
   let q = Queue.create () in
   Hashtbl.add seen (ident a_new) (); Queue.add (a_new, [], 1) q;
-  let nh = ref 0 and nstates = ref 1 and maxh = ref 0 in
+  let nh = ref 0 and nstates = ref 1 and maxh = ref 0 and structural = ref 0 in
   let handles = List.init (n + 2) (fun i -> i) @ [null_id] in
   let probes = String.concat "" (List.map (fun h -> Printf.sprintf "A get %d\nA has %d\n" h h) handles)
                ^ "A len\nA ac\nA empty\nA fc\nA stats\n" in
@@ -491,6 +494,7 @@ let explore_arena n =
       let (a', out) = astep Z0 a op in
       if List.length a'.store <= n then begin
         pr "H xa%d.%d arena cap=0\n%s%s\n%s" n !nh path line probes; incr nh;
+        (match op with AAlloc _ when a.free <> [] -> incr structural | _ -> ());
         (match out with
          | OPanic -> ()
          | _ ->
@@ -504,7 +508,7 @@ let explore_arena n =
       if Buffer.length buf > 60000 then flush_buf ()) ops
   done;
   flush_buf ();
-  Printf.eprintf "EXPLORE cap=0 keys=%d states=%d transitions=%d longest_path=%d closed=true\n" n !nstates !nh !maxh
+  Printf.eprintf "EXPLORE cap=0 keys=%d states=%d transitions=%d longest_path=%d closed=true structural=%d\n" n !nstates !nh !maxh !structural
 
 let () =
   if Array.length Sys.argv > 2 && Sys.argv.(1) = "--explore-arena" then (explore_arena (ios Sys.argv.(2)); exit 0);
